@@ -120,6 +120,8 @@ def main():
                 "demo_exit_clean": result.get("demo_exit_clean"), "demo_exit_patched": result.get("demo_exit_patched"),
                 "baseline_tests_passing_with_patch": result.get("baseline_tests_passing_with_patch"),
                 "checks_fired": fired,
+                "first_evaluation": ("caught by the target property" if result["caught_by_target_property"] else
+                                     ("caught by another property only" if result["caught_by_any"] else "missed by every check")),
                 "caught_by_target_property": result["caught_by_target_property"],
                 "caught_by_any": result["caught_by_any"]}
         json.dump(meta, open(os.path.join(dst, "meta.json"), "w"), indent=1)
